@@ -278,7 +278,8 @@ def add_units_ranges(rng, desc):
         for f in s["fields"]:
             p = {}
             if rng.random() < 0.3:
-                p["unit"] = rng.choice(["V", "A", "rpm", "deg C", "m/s"])
+                # (also units that end in an escaped quote - inches - : the value is everything between the delimiting quotes)
+                p["unit"] = rng.choice(["V", "A", "rpm", "deg C", "m/s", "in\\\"", "\\\""])
             if rng.random() < 0.25:
                 # dyadic and non-dyadic bounds, and whole numbers beyond 2^24 and 2^32: values a narrower float would round
                 lo = rng.choice([0.0, -1.5, 10.0, -100.25, 0.1, -0.3, 16777217.0])
